@@ -48,6 +48,24 @@ func newFlatSys(c *vCtx, metric DistanceKind, dim int, nids int) *vFlatSys {
 	return s
 }
 
+// newFlatDeep: narrow alphabets (2 values, 8 queries) so that deeper histories fit:
+// order of insertion vs id order, several pending removals at one flush, ...
+func newFlatDeep(c *vCtx, metric DistanceKind, nids int) *vFlatSys {
+	s := &vFlatSys{c: c, metric: metric, dim: 2, vals: [][]float32{{1, 0}, {3, 4}}}
+	for i := 1; i <= nids; i++ {
+		s.ids = append(s.ids, uint32(i))
+	}
+	s.cfg = fmt.Sprintf("flatdeep metric=%s dim=2 ids=%d", metric, nids)
+	for _, q := range [][]float32{{1, 0}, {2, 2}} {
+		for _, k := range []int{-1, 1} {
+			for _, r := range [][]uint32{nil, {1, 3}} {
+				s.qs = append(s.qs, vVecQuery{Q: q, K: k, IDs: r})
+			}
+		}
+	}
+	return s
+}
+
 func (s *vFlatSys) Reset() {
 	idx, err := NewFlatIndex(s.dim, s.metric)
 	if err != nil {
@@ -180,11 +198,28 @@ func init() {
 					}})
 				}
 			}
+			// deep-narrow shards: depth 6 (quick) / 7 (thorough) over 2 values and 3-4 ids in any order
+			for _, metric := range []DistanceKind{Euclidean, Cosine} {
+				metric := metric
+				dn, nn := 6, 3
+				if tier == "thorough" {
+					dn, nn = 7, 4
+				}
+				sh = append(sh, vShard{Name: fmt.Sprintf("flatdeep/%s", metric), Run: func(c *vCtx) {
+					vBFS(c, newFlatDeep(c, metric, nn), dn)
+				}})
+			}
 			return sh
 		},
 		Replay: func(c *vCtx, v *vViolation) bool {
 			var metric string
 			var dim, nids int
+			if strings.HasPrefix(v.Config, "flatdeep ") {
+				fmt.Sscanf(strings.TrimPrefix(v.Config, "flatdeep "), "metric=%s dim=%d ids=%d", &metric, &dim, &nids)
+				vReplayHist(newFlatDeep(c, DistanceKind(metric), nids), v.History)
+				_, ok := c.viol[v.Sig()]
+				return ok
+			}
 			fmt.Sscanf(strings.TrimPrefix(v.Config, "flat "), "metric=%s dim=%d ids=%d", &metric, &dim, &nids)
 			vReplayHist(mk(c, DistanceKind(metric), dim, nids), v.History)
 			_, ok := c.viol[v.Sig()]
